@@ -45,6 +45,7 @@ type c18Knobs struct {
 	MaxClockSkewMs  int64  `json:"MaxClockSkew_ms"`
 	Trust           string `json:"trust"`                               // md1 | md2 | md1+enc | pinned | fingerprint | old+md1 (an expired certificate listed first) | ec+md1 (an ECDSA certificate listed first)
 	Verifier        bool   `json:"custom_signature_verifier,omitempty"` // the application installs a SignatureVerifier (one that validates exactly like the library)
+	VerifierLatMs   int64  `json:"verifier_latency_ms,omitempty"`       // simulated time the application's verifier takes to answer (one that consults a key service); the verdict does not depend on it
 	UseAttr         string `json:"use_attr"`                            // KeyDescriptor use of signing certs: "signing" | ""
 	SPBase          string `json:"sp_base"`
 	IDPEntity       string `json:"idp_entity"`
@@ -66,6 +67,8 @@ type c18Spec struct {
 	Status       *string     `json:"status"`                  // nil: Status element absent
 	StatusNested string      `json:"status_nested,omitempty"`
 	NoStatusCode bool        `json:"no_status_code,omitempty"` // Status element without StatusCode
+	StatusMsg    *string     `json:"status_message,omitempty"` // samlp:StatusMessage inside Status (explains, decides nothing)
+	StatusDetail string      `json:"status_detail,omitempty"`  // samlp:StatusDetail inside Status: "" none | empty | one | two (child elements of the IdP's own namespace)
 	SignKey      int         `json:"sign_key"`                 // index into rsaKeys; -1: unsigned
 	SigMethod    string      `json:"sig_method,omitempty"`
 	SigPlace     string      `json:"sig_place,omitempty"`      // "" = after Issuer (schema) | last | first
@@ -92,6 +95,22 @@ type c18Op struct {
 	Foreign *c18Foreign `json:"foreign,omitempty"`
 }
 
+// c18Beside is content placed beside the root element in flight, at the top level of the byte string. White space, comments,
+// processing instructions (and an XML declaration in front of everything) are what XML admits there (production 27, Misc): the document
+// is the same document. Another element or text there and the byte string is not a well-formed document at all.
+type c18Beside struct {
+	At   string `json:"at"`   // before | after
+	Kind string `json:"kind"` // whitespace | comment | pi | xml-decl (before only, put first) | element | failure-response | right-response | text
+}
+
+func (b c18Beside) legal() bool {
+	switch b.Kind {
+	case "whitespace", "comment", "pi", "xml-decl":
+		return true
+	}
+	return false
+}
+
 // c18Hit is one byte-level corruption: position in parts per million of the document length.
 type c18Hit struct {
 	PosPPM int    `json:"pos_ppm"`
@@ -100,19 +119,20 @@ type c18Hit struct {
 }
 
 type c18Step struct {
-	Kind        string   `json:"kind"`  // deliver
-	Entry       string   `json:"entry"` // form | redirect | req-get | req-post
-	DelayMs     int64    `json:"delay_ms"`
-	Shape       string   `json:"shape"` // logout-response | one of the malformed shapes
-	BombMB      int      `json:"bomb_mb,omitempty"`
-	Resp        *c18Spec `json:"response,omitempty"`
-	Wire        []c18Op  `json:"wire,omitempty"`
-	Encoding    string   `json:"encoding,omitempty"` // "" proper | swap | trunc:<n> | badchar
-	Noise       []c18Hit `json:"noise,omitempty"`    // shape noise: byte-level damage in flight
-	RelayState  string   `json:"relay_state,omitempty"`
-	QuerySig    bool     `json:"query_sig,omitempty"`                       // detached redirect-binding signature parameters present (never sufficient)
-	URLFromDest bool     `json:"request_url_follows_destination,omitempty"` // req-get / req-post: the request target is the absolute URL the delivered document names as Destination
-	Intent      []string `json:"intent"`                                    // generator's labels (informational, logged)
+	Kind        string      `json:"kind"`  // deliver
+	Entry       string      `json:"entry"` // form | redirect | req-get | req-post
+	DelayMs     int64       `json:"delay_ms"`
+	Shape       string      `json:"shape"` // logout-response | one of the malformed shapes
+	BombMB      int         `json:"bomb_mb,omitempty"`
+	Resp        *c18Spec    `json:"response,omitempty"`
+	Wire        []c18Op     `json:"wire,omitempty"`
+	Encoding    string      `json:"encoding,omitempty"`    // "" proper | swap | trunc:<n> | badchar
+	Noise       []c18Hit    `json:"noise,omitempty"`       // shape noise: byte-level damage in flight
+	Beside      []c18Beside `json:"beside_root,omitempty"` // content put before / after the root element in flight (top level of the byte string)
+	RelayState  string      `json:"relay_state,omitempty"`
+	QuerySig    bool        `json:"query_sig,omitempty"`                       // detached redirect-binding signature parameters present (never sufficient)
+	URLFromDest bool        `json:"request_url_follows_destination,omitempty"` // req-get / req-post: the request target is the absolute URL the delivered document names as Destination
+	Intent      []string    `json:"intent"`                                    // generator's labels (informational, logged)
 }
 
 const (
@@ -165,6 +185,10 @@ func genLogout(g *Rng, tier string) *Plan {
 		UseAttr:         Pick(g, "signing", "signing", ""),
 		SPBase:          Pick(g, "https://sp.example.com", "https://sp.example.com", "https://sp.example.com:8443", "http://localhost:8000"),
 		IDPEntity:       Pick(g, "https://idp.example.com/metadata", "https://idp.example.com/metadata", "urn:example:idp"),
+	}
+	if k.Verifier {
+		// the application's verifier may take its time (it asks a key service, an HSM): simulated time passes inside the validation
+		k.VerifierLatMs = Pick(g, int64(0), 0, 20, 900, 4_000, 12_000, 45_000)
 	}
 	p := &Plan{Knobs: mustJSON(k)}
 	n := 1 + g.PickW(5, 3, 2)
@@ -228,7 +252,7 @@ func c18GenStep(g *Rng, k c18Knobs, i int, tier string) c18Step {
 	}
 	nd := g.PickW(22, 50, 18, 7, 3)
 	for d := 0; d < nd; d++ {
-		dim := []string{"signature", "destination", "issuer", "freshness", "status", "root"}[g.PickW(36, 18, 15, 15, 13, 3)]
+		dim := []string{"signature", "destination", "issuer", "freshness", "status", "root", "beside"}[g.PickW(34, 16, 14, 14, 13, 3, 6)]
 		c18Defect(g, k, &st, &spec, dim)
 	}
 	if nd == 0 {
@@ -277,6 +301,19 @@ func c18GenStep(g *Rng, k c18Knobs, i int, tier string) c18Step {
 		}
 		st.Intent = append(st.Intent, "benign:declare-unused-ns:"+st.Wire[len(st.Wire)-1].Arg)
 	}
+	if g.Bool(0.10) {
+		// benign: what XML admits beside the root element (white space, comments, processing instructions; an XML declaration in
+		// front) is put there in flight - a gateway's trace, a pretty-printer's line break. The document is the same document.
+		decl := false
+		for n := 1 + g.PickW(7, 3); n > 0; n-- {
+			b := c18Beside{At: Pick(g, "before", "after", "after"), Kind: Pick(g, "whitespace", "comment", "pi")}
+			if b.At == "before" && !decl && g.Bool(0.3) {
+				b.Kind, decl = "xml-decl", true
+			}
+			st.Beside = append(st.Beside, b)
+			st.Intent = append(st.Intent, "benign:beside-root:"+b.Kind+"@"+b.At)
+		}
+	}
 	st.Resp = &spec
 	return st
 }
@@ -307,6 +344,12 @@ func c18ValidSpec(g *Rng, k c18Knobs, i int, delay int64) c18Spec {
 		s.IssuerFormat = Pick(g, "urn:oasis:names:tc:SAML:1.1:nameid-format:unspecified", "urn:example:format:tenant") // the right name under an unusual Format
 	}
 	s.Pretty = g.Bool(0.2)
+	if g.Bool(0.08) {
+		s.StatusMsg = sp(Pick(g, "done", " all sessions ended ", ""))
+	}
+	if g.Bool(0.08) {
+		s.StatusDetail = Pick(g, "empty", "one", "two")
+	}
 	return s
 }
 
@@ -587,9 +630,31 @@ func c18Defect(g *Rng, k c18Knobs, st *c18Step, s *c18Spec, dim string) {
 			st.Wire = append(st.Wire, c18Op{Op: "set-status", Val: saml.StatusResponder})
 			st.Intent = append(st.Intent, "status:responder(on-wire)")
 		}
+		if s.Status != nil {
+			// an IdP that does not report success usually says why: a message, details in a vocabulary of its own
+			if g.Bool(0.4) {
+				s.StatusMsg = sp(Pick(g, "session not found", "logout failed at a session participant", ""))
+				st.Intent = append(st.Intent, "status:+message")
+			}
+			if g.Bool(0.4) {
+				s.StatusDetail = Pick(g, "empty", "one", "one", "two")
+				st.Intent = append(st.Intent, "status:+detail-"+s.StatusDetail)
+			}
+		}
 	case "root":
 		s.Root = Pick(g, "LogoutRequest", "Response", "wrong-ns", "no-ns")
 		st.Intent = append(st.Intent, "root:"+s.Root)
+		if g.Bool(0.4) {
+			// ... a message of another kind that the IdP did sign, and behind it a logout response that nobody signed
+			st.Beside = append(st.Beside, c18Beside{At: "after", Kind: "right-response"})
+			st.Intent = append(st.Intent, "beside-root:right-response@after")
+		}
+	case "beside":
+		// the byte string holds more than one document's worth: another element, a logout response nobody signed (reporting failure, or
+		// with every field right), or text, before or after the root element. Not a well-formed document, whatever the first element says.
+		b := c18Beside{At: []string{"after", "before"}[g.PickW(7, 3)], Kind: []string{"element", "failure-response", "right-response", "text"}[g.PickW(3, 2, 3, 3)]}
+		st.Beside = append(st.Beside, b)
+		st.Intent = append(st.Intent, "beside-root:"+b.Kind+"@"+b.At)
 	}
 }
 
@@ -618,6 +683,7 @@ type c18Model struct {
 	noise      bool          // byte-level damage at drawn positions: may or may not hit meaningful bytes
 	effective  []bool        // per wire op: did it change the document
 	foreign    []*c18Foreign // elements of a foreign namespace among the root's children (signed with the rest, or added in flight)
+	besideRoot bool          // an element or text was put beside the root element in flight
 }
 
 // namesakeWithKeyInfo: a foreign element called Signature that has a child called KeyInfo naming no certificate is among the root's children.
@@ -810,6 +876,17 @@ func c18Run(k c18Knobs, st *c18Step) *c18Model {
 		m.effective = append(m.effective, eff)
 	}
 	m.edited = m.structural || !m.signed.equal(m.content(attrs))
+	if st.Shape == "logout-response" {
+		for _, b := range st.Beside {
+			if !b.legal() {
+				// an element or text beside the root: the byte string is not a well-formed XML document (production 1: prolog, ONE element, Misc*)
+				m.wellFormed, m.besideRoot = false, true
+				if m.malformed == "" {
+					m.malformed = "content-beside-root"
+				}
+			}
+		}
+	}
 	return m
 }
 
@@ -886,7 +963,15 @@ func (m *c18Model) verdict(now int64) (expect string, bad []string, open []strin
 	if !c18Eq(m.issuer, m.k.IDPEntity) {
 		bad = append(bad, "issuer")
 	}
-	if c, why := m.freshClause(now); c == c18Bad {
+	c, why := m.freshClause(now)
+	if lat := m.k.VerifierLatMs; m.k.Verifier && lat > 0 {
+		// "no longer than MaxIssueDelay ago": ago from which instant between the call and its return, the statement does not say. While the
+		// application's verifier takes its time the age grows; a response whose age passes the bound meanwhile is neither demanded nor forbidden.
+		if c2, _ := m.freshClause(now + lat); c2 != c {
+			c, why = c18Open, "age-passes-MaxIssueDelay-while-the-application-verifier-answers"
+		}
+	}
+	if c == c18Bad {
 		bad = append(bad, "freshness")
 	} else if c == c18Open {
 		open = append(open, why)
@@ -1024,6 +1109,25 @@ func c18Build(k c18Knobs, st *c18Step, m *c18Model, t0 time.Time) []byte {
 		if s.StatusNested != "" {
 			lr.Status.StatusCode.StatusCode = &saml.StatusCode{Value: s.StatusNested}
 		}
+		if s.StatusMsg != nil {
+			lr.Status.StatusMessage = &saml.StatusMessage{Value: *s.StatusMsg}
+		}
+		if s.StatusDetail != "" {
+			d := &saml.StatusDetail{}
+			if s.StatusDetail == "one" || s.StatusDetail == "two" {
+				c := etree.NewElement("v:Cause")
+				c.CreateAttr("xmlns:v", c18VendorNS)
+				c.SetText("session not found")
+				d.Children = append(d.Children, c)
+			}
+			if s.StatusDetail == "two" {
+				c := etree.NewElement("v:Participant")
+				c.CreateAttr("xmlns:v", c18VendorNS)
+				c.CreateAttr("entity", c18OtherSP)
+				d.Children = append(d.Children, c)
+			}
+			lr.Status.StatusDetail = d
+		}
 	}
 	el := lr.Element()
 	if is := c18Child(el, "Issuer"); is != nil && s.Issuer != nil && s.IssuerSplit > 0 && s.IssuerSplit < len(*s.Issuer) {
@@ -1057,7 +1161,9 @@ func c18Build(k c18Knobs, st *c18Step, m *c18Model, t0 time.Time) []byte {
 			el.RemoveChild(stEl)
 		} else if s.NoStatusCode {
 			for _, c := range stEl.ChildElements() {
-				stEl.RemoveChild(c)
+				if c.Tag == "StatusCode" {
+					stEl.RemoveChild(c)
+				}
 			}
 		}
 	}
@@ -1251,6 +1357,47 @@ func c18Build(k c18Knobs, st *c18Step, m *c18Model, t0 time.Time) []byte {
 	return out
 }
 
+// c18BesideBytes renders what is put before and after the root element in flight.
+func c18BesideBytes(k c18Knobs, st *c18Step, t0 time.Time) (before, after []byte) {
+	unsigned := func(status string) []byte {
+		lr := &saml.LogoutResponse{ID: "id-lr-beside", InResponseTo: "id-logout-req", Version: "2.0", IssueInstant: t0.Add(ms(st.DelayMs)).UTC(),
+			Destination: c18SLO(k), Issuer: &saml.Issuer{Format: "urn:oasis:names:tc:SAML:2.0:nameid-format:entity", Value: k.IDPEntity},
+			Status: saml.Status{StatusCode: saml.StatusCode{Value: status}}}
+		return elBytes(lr.Element())
+	}
+	var decl []byte
+	for _, b := range st.Beside {
+		var x []byte
+		switch b.Kind {
+		case "whitespace":
+			x = []byte("\n  \t\r\n")
+		case "comment":
+			x = []byte("<!-- relayed by gateway 7 -->")
+		case "pi":
+			x = []byte(`<?gateway-trace id="7"?>`)
+		case "xml-decl":
+			if b.At == "before" && decl == nil {
+				decl = []byte(`<?xml version="1.0" encoding="UTF-8"?>`)
+			}
+			continue
+		case "element":
+			x = []byte(`<x:Note xmlns:x="` + c18VendorNS + `">n</x:Note>`)
+		case "failure-response":
+			x = unsigned(saml.StatusResponder)
+		case "right-response":
+			x = unsigned(saml.StatusSuccess)
+		case "text":
+			x = []byte("SAMLResponse ends here")
+		}
+		if b.At == "before" {
+			before = append(before, x...)
+		} else {
+			after = append(after, x...)
+		}
+	}
+	return append(decl, before...), after
+}
+
 func c18Deflate(b []byte) []byte {
 	var buf bytes.Buffer
 	w, _ := flate.NewWriter(&buf, flate.DefaultCompression)
@@ -1305,6 +1452,10 @@ func c18Payload(k c18Knobs, st *c18Step, m *c18Model, t0 time.Time) string {
 			return ""
 		}
 		raw = c18Build(k, st, m, t0)
+		if st.Shape == "logout-response" && len(st.Beside) > 0 {
+			before, after := c18BesideBytes(k, st, t0)
+			raw = append(append(before, raw...), after...)
+		}
 		if st.Shape == "truncated-xml" {
 			raw = raw[:len(raw)*2/3]
 		}
@@ -1374,6 +1525,9 @@ func c18NewSP(k c18Knobs) *saml.ServiceProvider {
 	spv := newSP(k.SPBase, rsaKeys[1], "", md)
 	if k.Verifier {
 		spv.SignatureVerifier = passVerifier{}
+		if k.VerifierLatMs > 0 {
+			spv.SignatureVerifier = c18SlowVerifier{ms(k.VerifierLatMs)}
+		}
 	}
 	switch k.Trust {
 	case "pinned":
@@ -1390,6 +1544,15 @@ func c18NewSP(k c18Knobs) *saml.ServiceProvider {
 		spv.IDPCertificateFingerprintAlgorithm = &alg
 	}
 	return spv
+}
+
+// c18SlowVerifier is an application-supplied saml.SignatureVerifier that takes (simulated) time before it answers what the library
+// itself would answer: one that fetches the IdP's current keys, or asks an HSM.
+type c18SlowVerifier struct{ d time.Duration }
+
+func (v c18SlowVerifier) VerifySignature(ctx *dsig.ValidationContext, el *etree.Element) error {
+	advance(v.d)
+	return passVerifier{}.VerifySignature(ctx, el)
 }
 
 func c18Request(k c18Knobs, st *c18Step, payload string, dest *string) *http.Request {
@@ -1446,6 +1609,11 @@ func execLogout(t *testing.T, p *Plan) *Result {
 	installRand(p)
 	spv := c18NewSP(k)
 	start := time.Now()
+	if k.Verifier && k.VerifierLatMs > 0 {
+		// whatever is still waiting for the application's verifier when the run ends (a library may hand the validation to a goroutine of
+		// its own and come back before it) gets the time to finish: the bubble's clock stops when the run returns
+		defer advance(ms(k.VerifierLatMs))
+	}
 
 	for si, raw := range p.Steps {
 		st := decode[c18Step](raw)
@@ -1547,6 +1715,38 @@ func execLogout(t *testing.T, p *Plan) *Result {
 		for _, f := range m.foreign {
 			res.probe("foreign-namesake:" + f.Name)
 		}
+		if st.Shape == "logout-response" {
+			for _, b := range st.Beside {
+				res.fire("tamper:beside-root")
+				res.probe("beside-root:" + b.Kind + "@" + b.At)
+			}
+			if m.besideRoot && len(bad) == 1 {
+				res.probe("content-beside-root-of-an-otherwise-valid-response")
+			}
+			if len(st.Beside) > 0 && !m.besideRoot && expect == "VALID" {
+				res.probe("valid-with-miscellany-beside-root")
+			}
+			if m.besideRoot && st.Resp != nil && (st.Resp.Root == "LogoutRequest" || st.Resp.Root == "Response") {
+				res.probe("other-signed-message-with-unsigned-logout-response-beside")
+			}
+			if r := st.Resp; r != nil && (r.StatusMsg != nil || r.StatusDetail != "") && r.Status != nil {
+				what := "status-message"
+				if r.StatusDetail != "" {
+					what = "status-detail-" + r.StatusDetail
+				}
+				if expect == "VALID" {
+					res.probe("valid-with-" + what)
+				} else if len(bad) == 1 && bad[0] == "status" {
+					res.probe("only-status-fails-with-" + what)
+				}
+			}
+			if k.Verifier && k.VerifierLatMs > 0 {
+				res.probe("application-verifier-with-latency")
+				if k.VerifierLatMs > 1000 && (st.Entry == "req-get" || st.Entry == "req-post") && m.sigDirect >= 1 && expect == "REJECT" {
+					res.probe("invalid-response-through-request-entry-with-verifier-latency-over-1s")
+				}
+			}
+		}
 		if len(m.foreign) > 0 && st.Shape == "logout-response" {
 			if m.sigDirect >= 1 && m.keyInfo != "own" && !strings.HasPrefix(m.keyInfo, "cert:") && m.namesakeWithKeyInfo() {
 				res.probe("foreign-signature-namesake-with-keyinfo-beside-signature-naming-no-certificate")
@@ -1644,6 +1844,9 @@ func simplifyLogout(p *Plan) []*Plan {
 				with(i, func(s *c18Step) { s.Noise = append(append([]c18Hit{}, s.Noise[:j]...), s.Noise[j+1:]...) })
 			}
 		}
+		for j := range st.Beside {
+			with(i, func(s *c18Step) { s.Beside = append(append([]c18Beside{}, s.Beside[:j]...), s.Beside[j+1:]...) })
+		}
 		if st.Entry != "form" && st.Shape != "bomb" {
 			with(i, func(s *c18Step) { s.Entry = "form"; s.QuerySig = false })
 		}
@@ -1674,6 +1877,12 @@ func simplifyLogout(p *Plan) []*Plan {
 			}
 			if r.IssuerSplit != 0 {
 				with(i, func(s *c18Step) { s.Resp.IssuerSplit = 0 })
+			}
+			if r.StatusMsg != nil {
+				with(i, func(s *c18Step) { s.Resp.StatusMsg = nil })
+			}
+			if r.StatusDetail != "" {
+				with(i, func(s *c18Step) { s.Resp.StatusDetail = "" })
 			}
 			// repair one clause at a time
 			if !c18Eq(r.Destination, c18SLO(k)) {
@@ -1722,6 +1931,20 @@ func simplifyLogout(p *Plan) []*Plan {
 		c.Knobs = mustJSON(k2)
 		out = append(out, c)
 	}
+	if k.VerifierLatMs != 0 {
+		c := p.Clone()
+		k2 := k
+		k2.VerifierLatMs = 0
+		c.Knobs = mustJSON(k2)
+		out = append(out, c)
+	}
+	if k.Verifier && k.VerifierLatMs == 0 {
+		c := p.Clone()
+		k2 := k
+		k2.Verifier = false
+		c.Knobs = mustJSON(k2)
+		out = append(out, c)
+	}
 	if k.MaxClockSkewMs != 180_000 {
 		c := p.Clone()
 		k2 := k
@@ -1762,10 +1985,12 @@ func simplifyLogout(p *Plan) []*Plan {
 func init() {
 	register(&Profile{
 		ID: "C18", Name: "logout", Level: "exploration",
-		Rule: "each run: 1-3 deliveries to a real ServiceProvider (trust: metadata with 1 or 2 signing certs, +encryption-only cert, pinned cert, fingerprint; MaxIssueDelay/MaxClockSkew, SP base URL, IdP entity ID drawn per run) through ValidateLogoutResponseForm / Redirect / Request(GET|POST) of a foreign-IdP LogoutResponse that starts valid and gets 0-4 defects drawn from {signature: never signed, untrusted key, encryption-only key, untrusted key naming the trusted cert, stripped, moved under a child, field/attribute/child edited after signing, second Signature, corrupted value; destination: absent, empty, ACS URL, other SP, prefix/truncation/query/slash/host variants; issuer: absent, empty, other tenant, near misses, name extended behind an XML comment; freshness: age at MaxIssueDelay -1ms/+1ms/half/x10/far/edge via delivery delay on the bubble clock, IssueInstant absent/empty/garbage, re-dated on the wire; status: absent, empty, Requester, Responder, case/suffix near misses, nested Success; other root element} plus ~10% malformed inputs (rootless, empty, non-XML, truncated XML/base64, wrong encoding for the entry point, 1-3 byte substitutions/deletions/insertions in a valid response, deflate bomb 50-300 MiB); non-trivial = a LogoutResponse document violating at most one clause of the statement (the oracle has to discriminate on exactly that clause); distinct = distinct abstract event log (entry, trust, signer, lexical form, defect labels, violated clauses, expectation, outcome); KeyInfo may carry further certificates beside the signer's (the trusted one beside an untrusted signer's, a stranger's beside the trusted signer's); the host time zone differs per run; an extension element of a foreign namespace that shares a local name the checks look for (Signature holding KeyInfo / KeyValue / the trusted X509Certificate, Issuer holding the right name, Status holding Success, KeyInfo) among the root's children - signed by the IdP with the rest (changes nothing), or added in flight (the signed content is no longer what was signed), often beside a Signature whose KeyInfo names no certificate; a run that does not come back within the driver's wall-clock bound is re-executed alone and reported (no return is not an error)",
+		Rule: "each run: 1-3 deliveries to a real ServiceProvider (trust: metadata with 1 or 2 signing certs, +encryption-only cert, pinned cert, fingerprint; MaxIssueDelay/MaxClockSkew, SP base URL, IdP entity ID drawn per run) through ValidateLogoutResponseForm / Redirect / Request(GET|POST) of a foreign-IdP LogoutResponse that starts valid and gets 0-4 defects drawn from {signature: never signed, untrusted key, encryption-only key, untrusted key naming the trusted cert, stripped, moved under a child, field/attribute/child edited after signing, second Signature, corrupted value; destination: absent, empty, ACS URL, other SP, prefix/truncation/query/slash/host variants; issuer: absent, empty, other tenant, near misses, name extended behind an XML comment; freshness: age at MaxIssueDelay -1ms/+1ms/half/x10/far/edge via delivery delay on the bubble clock, IssueInstant absent/empty/garbage, re-dated on the wire; status: absent, empty, Requester, Responder, case/suffix near misses, nested Success; other root element} plus ~10% malformed inputs (rootless, empty, non-XML, truncated XML/base64, wrong encoding for the entry point, 1-3 byte substitutions/deletions/insertions in a valid response, deflate bomb 50-300 MiB); non-trivial = a LogoutResponse document violating at most one clause of the statement (the oracle has to discriminate on exactly that clause); distinct = distinct abstract event log (entry, trust, signer, lexical form, defect labels, violated clauses, expectation, outcome); KeyInfo may carry further certificates beside the signer's (the trusted one beside an untrusted signer's, a stranger's beside the trusted signer's); the host time zone differs per run; an extension element of a foreign namespace that shares a local name the checks look for (Signature holding KeyInfo / KeyValue / the trusted X509Certificate, Issuer holding the right name, Status holding Success, KeyInfo) among the root's children - signed by the IdP with the rest (changes nothing), or added in flight (the signed content is no longer what was signed), often beside a Signature whose KeyInfo names no certificate; a run that does not come back within the driver's wall-clock bound is re-executed alone and reported (no return is not an error); Status may carry a StatusMessage and a StatusDetail (empty, or with one or two elements of the IdP's own vocabulary) beside its StatusCode - with Success (changes nothing) and, more often, with the non-Success codes (an IdP that refuses says why; the status clause fails all the same); content put beside the root element in flight, before or after it: white space, a comment, a processing instruction, an XML declaration in front (legal there: verdict unchanged) or another element, a LogoutResponse nobody signed (reporting failure, or with every field right), text (not a well-formed document: error) - also behind a LogoutRequest / Response the IdP did sign; the application's SignatureVerifier may take 20 ms - 45 s of simulated time to answer (the verdict is the same; a response whose age passes MaxIssueDelay meanwhile is don't-care)",
 		Gen:  genLogout, Exec: execLogout, Simplify: simplifyLogout,
 		RunsQuick: 6000, RunsThorough: 600000,
 		Assumptions: []string{
+			"well-formed is XML 1.0 well-formed: prolog, one root element, then only white space, comments and processing instructions; a byte string with a second element or text beside the root is not a document and yields an error whatever its first element says",
+			"time can pass inside a validation only where the simulation lets it: in the application's SignatureVerifier (sleep on the bubble clock); processor time of the library's own code is invisible to the bubble clock, so a bound on real elapsed time is not exercised by document size",
 			"instants are exact milliseconds; age exactly equal to MaxIssueDelay is a declared don't-care",
 			"the freshness check reads time.Now(); in the bubble this is the simulated clock, and no SP clock skew is modelled for this path",
 			"a Signature element that is not a child of the root element is not an enveloped signature of the response (SAML schema position)",
